@@ -13,7 +13,8 @@ use serde_json::{json, Value as J};
 use std::str::FromStr;
 
 pub fn xml_escape(s: &str) -> String {
-    s.replace('&', "&amp;").replace('<', "&lt;").replace('>', "&gt;").replace('"', "&quot;")
+    // (a literal CR would be normalised away by any XML reader; written as a character reference it is part of the text)
+    s.replace('&', "&amp;").replace('<', "&lt;").replace('>', "&gt;").replace('"', "&quot;").replace('\r', "&#xd;")
 }
 
 pub struct Pin {
@@ -145,7 +146,9 @@ pub fn replay_dig_file(path: &str, seed: u64) -> J {
             .map(|t| {
                 let header: Vec<&str> = t["header"].as_array().unwrap().iter().map(|h| h.as_str().unwrap()).collect();
                 let source = if t["hok"].as_bool().unwrap() {
-                    format!("{}\n{}\n# source {}\n", header.join(" "), vec!["1"; header.len()].join(" "), t["src"])
+                    // (kept verbatim: CR LF line ends and a non-ASCII comment in some of them)
+                    let nl = if (i + renaming) % 3 == 1 { "\r\n" } else { "\n" };
+                    format!("{}{nl}{}{nl}# source {}{}{nl}", header.join(" "), vec!["1"; header.len()].join(" "), t["src"], if i % 4 == 2 { " é" } else { "" })
                 } else {
                     "A B".to_string()
                 };
@@ -279,8 +282,9 @@ pub fn replay_dig_file(path: &str, seed: u64) -> J {
 }
 
 /// label renamings: (A, B, t, u) -> ...; `<x>_out` follows `<x>`
-const RENAMINGS: [[&str; 4]; 4] = [
+const RENAMINGS: [[&str; 4]; 5] = [
     ["A", "B", "t", "u"],
+    ["bus_out_en", "B_outer", "t_out", "u"],
     ["Bits", "Label", "Testdata", "Label"],
     ["InDefault", "Testdata", "Bits", "In"],
     ["Out", "Clock", "Testcase", "dataString"],
@@ -320,7 +324,7 @@ fn rename_behaviour(b: &J, k: usize) -> J {
         }
     };
     // the model's one explicit width (4) stands for any width: DigParse only copies it
-    let width = [4u64, 64, 63, 17][k];
+    let width = [4u64, 8, 64, 63, 17][k];
     let rew = |v: &mut J| {
         if v.as_u64() == Some(4) {
             *v = json!(width);
